@@ -118,7 +118,7 @@ class Shape(object):
                 return '(%s)' % '+'.join(sorted(ts))
         # function parameter holding a table/subquery
         if isinstance(e, ast.Name) and e.id in self.f.params:
-            return '<%s>' % e.id
+            return '<arg%d>' % self.f.params.index(e.id)
         return None
 
     def operand(self, e, depth=0):
@@ -140,13 +140,17 @@ class Shape(object):
         if isinstance(root, ast.Name):
             g = self.f
             is_param = False
+            up = 0
             while g is not None:
                 if root.id in g.params:
                     is_param = True
                     break
                 g = g.parent
+                up += 1
             if is_param:
-                return 'param:%s' % '.'.join([root.id] + attrs[::-1][:2])
+                # positional: a parameter rename does not change the shape
+                pid = '%sarg%d' % ('^' * up, g.params.index(root.id))
+                return 'param:%s' % '.'.join([pid] + attrs[::-1][:2])
             if root.id in self.loop_vars:
                 return 'loopvar'
             ds = self._defs.get(root.id, [])
